@@ -20,6 +20,7 @@ the problem classes.
 """
 
 from qubovert.utils import Conversions, PUBOMatrix
+import itertools
 
 
 __all__ = 'Problem',
@@ -245,9 +246,19 @@ class Problem(Conversions):
         all_solutions = kwargs.pop("all_solutions", False)
         qubo = self.to_qubo(*args, **kwargs)
         sol = qubo.solve_bruteforce(all_solutions)
+        # variables whose terms all vanish do not appear in ``qubo``. They
+        # are free, but ``convert_solution`` needs a value for them.
+        missing = [
+            i for i in range(self.num_binary_variables)
+            if i not in (sol[0] if all_solutions else sol)
+        ]
         if all_solutions:
+            sol = [
+                {**x, **dict(zip(missing, values))} for x in sol
+                for values in itertools.product((0, 1), repeat=len(missing))
+            ]
             return [self.convert_solution(x) for x in sol]
-        return self.convert_solution(sol)
+        return self.convert_solution({**sol, **{i: 0 for i in missing}})
 
     def to_pubo(self, *args, **kwargs):
         """to_pubo.
